@@ -1,4 +1,5 @@
 import gfapy
+import re
 
 class NumericArray(list):
   """
@@ -46,6 +47,14 @@ class NumericArray(list):
   """
   Range for integer subtypes
   (Python-style, i.e. range[1] is not included)
+  """
+
+  ELEMENT_PATTERN = {
+    "i" : r"[-+]?[0-9]+",
+    "f" : r"[-+]?[0-9]*\.?[0-9]+([eE][-+]?[0-9]+)?",
+  }
+  """
+  Syntax of the elements in the string representation
   """
 
   def validate(self):
@@ -191,10 +200,17 @@ class NumericArray(list):
     subtype = elems[0]
     if subtype not in NumericArray.SUBTYPE:
       raise gfapy.TypeError("Subtype {} unknown".format(subtype))
+    if not valid and len(elems) < 2:
+      raise gfapy.FormatError("Numeric array string contains no values\n"+
+          "String: {}".format(string))
     if subtype != "f":
       range = NumericArray.SUBTYPE_RANGE[subtype]
     def gen():
       for e in elems[1:]:
+        if not valid and not re.fullmatch(NumericArray.ELEMENT_PATTERN[
+            "f" if subtype == "f" else "i"], e):
+          raise gfapy.ValueError("Value is not valid: {}\n".format(e)+
+              "Numeric array string: {}".format(string))
         if subtype != "f":
           try:
             e = int(e)
